@@ -1,11 +1,14 @@
+pub mod alloc;
 pub mod drain;
 pub mod engine;
 pub mod entity;
 pub mod panics;
 pub mod reqgen;
+pub mod sched;
 pub mod served;
 pub mod util;
 pub mod oracle {
+    pub mod inflate;
     pub mod multipart;
     pub mod range_ref;
 }
